@@ -70,6 +70,7 @@ Inductive event :=
 | ECleanFiles (c : nat) (force : bool)          (* _clean_temporary_resources, the for loop *)
 | ECleanFolder (c : nat) (allow : bool)         (* ... the try block *)
 | EDeleteOnly (c : nat) (allow : bool)          (* ... killed right after delete_folder *)
+| EAtexit (c : nat)                   (* interpreter exit: the _cleanup closure of register_folder_finalizer *)
 | ETracker.                           (* the tracker reads and handles one request *)
 
 Definition send (w : world) (qs : list request) : world :=
@@ -146,6 +147,15 @@ Definition ev_step (w : world) (e : event) : world * list action :=
         | _ => (rm_folder w c, [ADeleteFolder c true])
         end
       else (w, [])
+  | EAtexit c =>
+      (* delete_folder(pool_subfolder, allow_non_empty=True); unregister(pool_subfolder, "folder").
+         The manager is not used afterwards: its two dictionaries are ghost state from here on. *)
+      if mem c (w_final w) then
+        let w1 := send (rm_folder w c) [QUnregister Folder (fold_name c)] in
+        ({| w_reg := w_reg w1; w_pipe := w_pipe w1; w_folders := w_folders w1; w_files := w_files w1;
+            w_cached := remove_c c (w_cached w1); w_final := remove_c c (w_final w1) |},
+         [ADeleteFolder c true; ASend (QUnregister Folder (fold_name c))])
+      else (w, [])
   | ETracker =>
       match w_pipe w with
       | [] => (w, [])
@@ -181,6 +191,9 @@ Fixpoint drain (r : registry) (qs : list request) (fo : list nat) (fi : list (na
 Definition disk_after_kill (w : world) : list nat * list (nat * nat) :=
   let '(r, (fo, fi)) := drain (w_reg w) (w_pipe w) (w_folders w) (w_files w) in
   fs_cleanups (fst (finish false (fun _ => false) r)) fo fi.
+
+(* normal interpreter exit: every live atexit finalizer runs, then the process is gone *)
+Definition exit_normally (w : world) : world := fold_left (fun w c => fst (ev_step w (EAtexit c))) (w_final w) w.
 
 (* the count of key k once the tracker will have read everything that is in the pipe *)
 Definition pend (w : world) (k : key) : Z :=
